@@ -27,4 +27,15 @@ theorem hoisted_does_not_refine : ¬ Refines resolveHoisted := by
   revert this
   decide
 
+/-- the statement `toMWEH_refines` makes, for an arbitrary implementation -/
+def RefinesToMWE (impl : List (Key × Str) → Cells → HMWE × Cells) : Prop :=
+  ∀ m h, deref (impl m h).2 (impl m h).1 = toMWE m
+
+/-- without the copy `v := v` (Go < 1.22 loop-variable semantics, go.mod: go 1.21) all keys read the last value -/
+theorem no_copy_does_not_refine : ¬ RefinesToMWE toMWENoCopy := by
+  intro h
+  have := h [(['A'], ['1']), (['B'], ['2'])] []
+  revert this
+  decide
+
 end CV.EnvLayers.Heap.Neg
